@@ -979,8 +979,8 @@ void TasmanianSparseGrid::setSurplusRefinement(double tolerance, TypeRefinement 
     if ((!level_limits.empty()) && (level_limits.size() != (size_t) dims)) throw std::invalid_argument("ERROR: setSurplusRefinement() requires level_limits with either 0 or dimenions entries");
     if ((!scale_correction.empty()) && (scale_correction.size() != nscale)) throw std::invalid_argument("ERROR: setSurplusRefinement() incorrect size for scale_correction");
 
-    if (!level_limits.empty()) llimits = level_limits;
-    setSurplusRefinement(tolerance, criteria, output, nullptr, (scale_correction.empty()) ? nullptr : scale_correction.data());
+    // the raw-array overload stores the new limits after it has validated the remaining arguments
+    setSurplusRefinement(tolerance, criteria, output, (level_limits.empty()) ? nullptr : level_limits.data(), (scale_correction.empty()) ? nullptr : scale_correction.data());
 }
 
 void TasmanianSparseGrid::clearRefinement(){
